@@ -29,6 +29,19 @@ def fps_update(X, norms, hausdorff, hausdorff_at_select, last, axis):
     return hausdorff_at_select, np.minimum(hausdorff, d)
 
 
+def voronoi_first_table(X, norms, first, full_fraction):
+    # the table after the initial pick: every sample is active (nothing selected before), so the
+    # table holds the distance of every sample to the pick, on either side of the switching point
+    # (the pruned side sets the pick's own entry to an exact zero)
+    d = norms + norms[first] - 2 * (X[first] @ X.T)
+    if X.shape[0] / X.shape[0] > full_fraction:
+        new = d
+    else:
+        new = d.copy()
+        new[first] = 0
+    return np.minimum(np.full(X.shape[0], np.inf), new)
+
+
 def pcov_fps_update(M, norms, hausdorff, hausdorff_at_select, last, axis):
     # same with the PCovR-modified covariance (features) / Gram matrix (samples) M
     hausdorff_at_select[last] = hausdorff[last]
